@@ -463,6 +463,26 @@ theorem step_TInv (p : P) (h : TInv p) (op : Op) (hv : handlesValid p op = true)
           · exact hv.2
           · exact h.maps _ (List.getElem_mem hv.1) m hold
       · exact counters_set h.counters (List.getElem?_eq_getElem hv.1) rfl
+  | removeMapping pi start =>
+    simp only [handlesValid, decide_eq_true_eq] at hv
+    simp only [step, List.getElem?_eq_getElem hv]
+    refine h.of (GB.le_of_eq (by simp [P.gb])) h.libs h.gstr (fun t ht => Or.inl ht) h.subsPos h.schemaCats
+      h.statics ?_ ?_ h.visible h.selected
+    · intro pr hpr m hm
+      rcases List.mem_or_eq_of_mem_set hpr with hpr | rfl
+      · exact h.maps pr hpr m hm
+      · exact h.maps _ (List.getElem_mem hv) m (List.mem_filter.mp hm).1
+    · exact counters_set h.counters (List.getElem?_eq_getElem hv) rfl
+  | clearMappings pi =>
+    simp only [handlesValid, decide_eq_true_eq] at hv
+    simp only [step, List.getElem?_eq_getElem hv]
+    refine h.of (GB.le_of_eq (by simp [P.gb])) h.libs h.gstr (fun t ht => Or.inl ht) h.subsPos h.schemaCats
+      h.statics ?_ ?_ h.visible h.selected
+    · intro pr hpr m hm
+      rcases List.mem_or_eq_of_mem_set hpr with hpr | rfl
+      · exact h.maps pr hpr m hm
+      · cases hm
+    · exact counters_set h.counters (List.getElem?_eq_getElem hv) rfl
   | string s =>
     simp only [step]
     have h1 := p.gstrings.indexFor_spec s h.gstr
